@@ -32,6 +32,7 @@ import (
 	"github.com/FollowTheProcess/spok/iostream"
 	"github.com/FollowTheProcess/spok/parser"
 	"github.com/FollowTheProcess/spok/shell"
+	"github.com/FollowTheProcess/spok/zzverif/refs"
 	"github.com/FollowTheProcess/spok/zzverif/stubs"
 	"github.com/FollowTheProcess/spok/zzverif/sym"
 	"github.com/FollowTheProcess/spok/zzverif/vfs"
@@ -147,21 +148,24 @@ type inputs struct {
 	digest   string
 }
 
+// declared is the harness's own reading of the shape; candidates the files a glob may match.
+var (
+	declared   map[string]refs.Decl
+	candidates []string
+)
+
+func exists(abs string) bool {
+	if sym.Symbolic() {
+		return vfs.Exists(abs)
+	}
+	_, err := os.Stat(abs)
+	return err == nil
+}
+
+// inputsOf: the paths come from the harness's own reading of the shape (package refs), never from
+// sf.Tasks / sf.Globs; the digest is the real hasher's (its determinism is C04's subject).
 func inputsOf(tree *parserTree, t string) inputs {
-	sf, err := file.New(tree.t, root, nopLogger{})
-	if err != nil {
-		panic("file.New: " + err.Error())
-	}
-	if err := sf.ExpandGlobs(); err != nil {
-		panic("ExpandGlobs: " + err.Error())
-	}
-	tk := sf.Tasks[t]
-	var paths []string
-	for _, g := range tk.GlobDependencies {
-		paths = append(paths, sf.Globs[g]...)
-	}
-	paths = append(paths, tk.FileDependencies...)
-	sort.Strings(paths)
+	paths := refs.Inputs(declared[t], root, candidates, exists)
 	in := inputs{paths: paths}
 	for _, p := range paths {
 		in.contents = append(in.contents, read(p))
@@ -231,12 +235,10 @@ func Step() {
 		panic("harness spokfile does not parse: " + err.Error())
 	}
 	tree := &parserTree{parsed}
-	sf0, err := file.New(parsed, root, nopLogger{})
-	if err != nil {
-		panic(err.Error())
-	}
+	declared = refs.Declared(text)
+	candidates = append(append([]string(nil), files...), globfiles...)
 	var names []string
-	for n := range sf0.Tasks {
+	for n := range declared {
 		names = append(names, n)
 	}
 	sort.Strings(names)
@@ -328,7 +330,7 @@ func Step() {
 		t := res.Task
 		cur := inputsOf(tree, t)
 		g := gh[t]
-		ncmd := len(sf.Tasks[t].Commands)
+		ncmd := declared[t].Commands
 		if force {
 			sym.Assert(!res.Skipped, "C14/skipped-under-force")
 			sym.Assert(r.executed[t] == ncmd, "C14/commands-not-run-under-force")
